@@ -369,6 +369,36 @@ fn edit_doc(doc: &mut OperationDocument, rng: &mut Rng) -> usize {
 
 // ------------------------------------------------------------------ one case
 
+fn direct_spreads<'a>(ss: &'a SelectionSet<'a>, out: &mut Vec<&'a str>) {
+    for s in &ss.selections {
+        match s {
+            Selection::Field(f) => if let Some(sub) = &f.selection_set { direct_spreads(sub, out) },
+            Selection::FragmentSpread(f) => out.push(f.fragment_name.name),
+            Selection::InlineFragment(i) => direct_spreads(&i.selection_set, out),
+        }
+    }
+}
+/// is there a cycle among the fragment definitions (by name)?
+fn spread_graph_cyclic(doc: &OperationDocument) -> bool {
+    let mut edges: HashMap<&str, Vec<&str>> = HashMap::new();
+    for d in &doc.definitions {
+        if let ExecutableDefinition::FragmentDefinition(f) = d {
+            let mut v = vec![]; direct_spreads(&f.selection_set, &mut v);
+            edges.entry(f.name.name).or_default().extend(v);
+        }
+    }
+    fn visit<'a>(n: &'a str, edges: &HashMap<&'a str, Vec<&'a str>>, stack: &mut Vec<&'a str>, done: &mut HashSet<&'a str>) -> bool {
+        if stack.contains(&n) { return true; }
+        if done.contains(n) { return false; }
+        stack.push(n);
+        for m in edges.get(n).map(|v| v.as_slice()).unwrap_or(&[]) { if visit(m, edges, stack, done) { return true; } }
+        stack.pop(); done.insert(n);
+        false
+    }
+    let mut done = HashSet::new();
+    edges.keys().any(|k| visit(k, &edges, &mut vec![], &mut done))
+}
+
 fn leak(s: String) -> &'static str { Box::leak(s.into_boxed_str()) }
 
 struct Ctx<'a> {
@@ -414,9 +444,14 @@ impl<'a> Ctx<'a> {
             (Err(a), Err(b)) if a == b => {}
             _ => self.direct_failures.push(json!({"what": "graphql-loader print_js and print_js_for_operation_document differ in panicking", "classes": [], "document": text})),
         }
-        // 2. TS printer in standalone mode (needs a schema and a document the type printer can handle)
+        // 2. TS printer in standalone mode (needs a schema and a document the type printer can handle).
+        // The type printer recurses without a visited set: on a document with a fragment cycle (which `check`
+        // accepts when the cycle is not reachable from an operation) it overflows the stack and the process
+        // dies, so it is not run on those (counted; C03/C08 territory).
+        let cyclic = spread_graph_cyclic(doc);
+        if accepted && cyclic { self.bump("accepted_by_check_but_cyclic_fragments(ts_mode_not_run:stack_overflow)"); }
         let ts: Option<Outcome> = match schema {
-            Some(s) if accepted => {
+            Some(s) if accepted && !cyclic => {
                 let r = catch(AssertUnwindSafe(|| {
                     let mut rec = Rec::default();
                     let opts = OperationTypePrinterOptions { print_values: true, ..OperationTypePrinterOptions::default() };
